@@ -3,7 +3,7 @@
 
 mod clock_state_fsm;
 
-use clock_bound_shm::{ClockErrorBound, ShmWrite, ShmWriter};
+use clock_bound_shm::{ClockErrorBound, ClockStatus, ShmWrite, ShmWriter};
 use chrony_candm::reply::Tracking;
 use std::path::Path;
 use std::time::Duration;
@@ -42,6 +42,11 @@ where
 
     /// Reserved field.  Place-holder that is reserved for future use.
     reserved1: u32,
+
+    /// Whether `bound_nsec` and `as_of` hold a measurement yet, that is whether a synchronized
+    /// chrony report has been processed since this daemon started. Until then they are
+    /// place-holders (zero) that clients must not trust.
+    bound_measured: bool,
 }
 
 impl<W> ShmUpdater<W>
@@ -60,6 +65,7 @@ where
                 tv_nsec: 0,
             },
             reserved1: 0,
+            bound_measured: false,
         }
     }
 
@@ -78,13 +84,22 @@ where
             tv_nsec: 0,
         };
 
+        // Before a first measurement exists there is no bound to advertise: whatever chronyd
+        // answers (unsynchronized, stale, nothing at all), a FreeRunning status next to the zero
+        // place-holder bound would let clients trust an interval of zero width.
+        let clock_status = if self.bound_measured {
+            self.shm_clock_state.value()
+        } else {
+            ClockStatus::Unknown
+        };
+
         let ceb = ClockErrorBound::new(
             self.as_of,
             void_after,
             self.bound_nsec,
             self.max_drift_ppb,
             self.reserved1,
-            self.shm_clock_state.value(),
+            clock_status,
         );
 
         debug!("Writing ClockErrorBound to shared memory {:?}", ceb);
@@ -120,6 +135,7 @@ where
         if clock_status == ChronyClockStatus::Synchronized {
             self.bound_nsec = bound_nsec;
             self.as_of = as_of;
+            self.bound_measured = true;
         }
 
         // Finally write the new CEB out to shared memory.
